@@ -58,6 +58,17 @@ def sweeps(tier):
             cases.append({'t': 'size', 'kind': 'req:8', 'fields': {'sub': sub, 'data': [w]}})
     cases.append({'t': 'size', 'kind': 'req:8', 'fields': {'sub': 0, 'data': [1, 2, 3]}})
     out = [('all-quantities-of-every-predicting-request', cases, True)]
+    # the same prediction asked of request objects that were decoded from the wire or re-used with a new quantity
+    more = []
+    for fc, maxq in ((1, 2000), (2, 2000), (3, 125), (4, 125), (15, 1968), (16, 123), (23, 125)):
+        for q in sorted(set(list(range(1, 41)) + [maxq - 1, maxq, maxq // 2, 255, 256, 257] if maxq > 300 else range(1, maxq + 1))):
+            if q > maxq:
+                continue
+            k, f = _req_fields(fc, q)
+            more.append({'t': 'size', 'kind': k, 'fields': f, 'built': 'decoded'})
+            if fc in (1, 2, 3, 4):
+                more.append({'t': 'size', 'kind': k, 'fields': f, 'built': 'reused'})
+    out.append(('predictions-of-decoded-and-re-used-request-objects', more, False))
     cases = []
     for framing in ('rtu', 'ascii', 'binary'):
         for fc, qs in ((1, [1, 7, 8, 9, 16, 17, 2000]), (3, [1, 2, 125]), (5, [1]), (6, [1]), (15, [1, 9, 1968]), (16, [1, 123]), (23, [1, 125])):
@@ -108,6 +119,18 @@ def _run_size(case):
     kind, f = case['kind'], case['fields']
     labels = ['size', 'kind:' + kind]
     creq = kinds.build(kind, f)
+    how = case.get('built')
+    if how == 'decoded':
+        # the same request as the decoder builds it from the wire
+        from pymodbus.factory import ServerDecoder
+        creq = ServerDecoder().decode(specpdu.encode(kind, f))
+        labels.append('request-object-decoded')
+    elif how == 'reused' and kind in ('req:1', 'req:2', 'req:3', 'req:4'):
+        # an object built for another quantity and then re-used (the quantity is a public attribute)
+        q = f['quantity']
+        creq = kinds.build(kind, dict(f, quantity=(q * 7 + 13) % 120 + 1))
+        creq.count = q
+        labels.append('request-object-reused')
     discs = []
     try:
         pred = creq.get_response_pdu_size()
